@@ -37,15 +37,18 @@ static int TOL_PPB=100000; /* 1e-4 */
 static int OBS_GAIN_EXACT=0;
 
 /* ------------------------------------------------------------------ op sequences */
-typedef struct { const unsigned char *d; int len; int plc; int fec; } op_t;
+typedef struct { const unsigned char *d; int len; int plc; int fec; int reset; } op_t;   /* reset: OPUS_RESET_STATE instead of a decode call (the gain is a setting and stays) */
 #define MAXOP 40
 typedef struct { op_t op[MAXOP]; int n; int stream; } seq_t;
 static void mk_seq(seq_t *q,int s,int with_derived){
    int i; cstream *st=&CO.s[s]; q->n=0; q->stream=s;
-   for(i=0;i<st->n&&q->n<MAXOP-8;i++){ cpkt *p=&CO.p[st->first+i]; q->op[q->n].d=p->data; q->op[q->n].len=p->len; q->op[q->n].plc=0; q->op[q->n].fec=0; q->n++; }
-   q->op[q->n].d=NULL; q->op[q->n].len=0; q->op[q->n].plc=1; q->op[q->n].fec=0; q->n++;      /* one concealed frame */
-   if(st->fec && st->n>=2){ cpkt *p=&CO.p[st->first+st->n-1]; q->op[q->n].d=p->data; q->op[q->n].len=p->len; q->op[q->n].plc=0; q->op[q->n].fec=1; q->n++; }  /* LBRR decode of the last packet */
-   if(with_derived) for(i=0;i<CO.n&&q->n<MAXOP;i++) if(CO.p[i].stream==s&&CO.p[i].kind!=0){ q->op[q->n].d=CO.p[i].data; q->op[q->n].len=CO.p[i].len; q->op[q->n].plc=0; q->op[q->n].fec=0; q->n++; }
+   for(i=0;i<st->n&&q->n<MAXOP-8;i++){ cpkt *p=&CO.p[st->first+i]; q->op[q->n].d=p->data; q->op[q->n].len=p->len; q->op[q->n].plc=0; q->op[q->n].fec=0; q->op[q->n].reset=0; q->n++; }
+   q->op[q->n].d=NULL; q->op[q->n].len=0; q->op[q->n].plc=1; q->op[q->n].fec=0; q->op[q->n].reset=0; q->n++;      /* one concealed frame */
+   if(st->fec && st->n>=2){ cpkt *p=&CO.p[st->first+st->n-1]; q->op[q->n].d=p->data; q->op[q->n].len=p->len; q->op[q->n].plc=0; q->op[q->n].fec=1; q->op[q->n].reset=0; q->n++; }  /* LBRR decode of the last packet */
+   /* OPUS_RESET_STATE in mid-stream (twin and gained decoders alike), then the first packets again: the gain must still be applied */
+   memset(&q->op[q->n],0,sizeof(op_t)); q->op[q->n].reset=1; q->n++;
+   for(i=0;i<st->n&&i<2&&q->n<MAXOP-4;i++){ cpkt *p=&CO.p[st->first+i]; memset(&q->op[q->n],0,sizeof(op_t)); q->op[q->n].d=p->data; q->op[q->n].len=p->len; q->n++; }
+   if(with_derived) for(i=0;i<CO.n&&q->n<MAXOP;i++) if(CO.p[i].stream==s&&CO.p[i].kind!=0){ q->op[q->n].d=CO.p[i].data; q->op[q->n].len=CO.p[i].len; q->op[q->n].plc=0; q->op[q->n].fec=0; q->op[q->n].reset=0; q->n++; }
 }
 /* one decoded sequence in one sample format */
 typedef struct { int ret[MAXOP]; opus_uint32 rng[MAXOP]; int dur[MAXOP]; float *f[MAXOP]; opus_int16 *s[MAXOP]; opus_int32 *t[MAXOP]; } dec_out;
@@ -59,6 +62,9 @@ static int run_dec(const seq_t *q,int fs,int ch,int fmt,const int *gains,dec_out
       if(gains[i]!=prev || i==0){ int e=opus_decoder_ctl(d,OPUS_SET_GAIN(gains[i])); opus_decoder_ctl(d,OPUS_GET_GAIN(&gg));
          if(e!=OPUS_OK||gg!=gains[i]) mc_fail("gain:ctl_rejected_or_readback","%s: OPUS_SET_GAIN(%d) returned %d, OPUS_GET_GAIN reads %d",what,gains[i],e,gg);
          prev=gains[i]; }
+      if(op->reset){ int e=opus_decoder_ctl(d,OPUS_RESET_STATE), g2=-99999; opus_decoder_ctl(d,OPUS_GET_GAIN(&g2));
+         if(e!=OPUS_OK||g2!=gains[i]) mc_fail("gain:reset_state_changed_gain_setting","%s op %d: OPUS_RESET_STATE returned %d, OPUS_GET_GAIN then reads %d (gain in force %d)",what,i,e,g2,gains[i]);
+         o->ret[i]=0; opus_decoder_ctl(d,OPUS_GET_FINAL_RANGE(&o->rng[i])); opus_decoder_ctl(d,OPUS_GET_LAST_PACKET_DURATION(&o->dur[i])); lastdur=fs/50; MC_INC(c_trans); continue; }
       mc_case(fmt==0?"gain_decode_float":fmt==1?"gain_decode16":"gain_decode24","%s op %d gain %d len %d plc %d fec %d",what,i,gains[i],op->len,op->plc,op->fec);
       /* exact-size output blocks */
       if(fmt==0){ o->f[i]=malloc(sizeof(float)*n); r=opus_decode_float(d,op->d,op->len,o->f[i],fsz,op->fec); }
@@ -130,7 +136,7 @@ static void check_run(const seq_t *q,int fs,int ch,const int *gains,const dec_ou
    }
    /* --- integer outputs against the gained float signal b */
    { int ever_out=0;
-     for(i=0;i<q->n;i++){ int n=a0->ret[i]*ch, in=1; const float *b; if(a0->ret[i]<=0||bf->ret[i]!=a0->ret[i]||b16->ret[i]!=a0->ret[i]||b24->ret[i]!=a0->ret[i]){ ever_out=1; continue; }
+     for(i=0;i<q->n;i++){ int n=a0->ret[i]*ch, in=1; const float *b; if(q->op[i].reset) continue; if(a0->ret[i]<=0||bf->ret[i]!=a0->ret[i]||b16->ret[i]!=a0->ret[i]||b24->ret[i]!=a0->ret[i]){ ever_out=1; continue; }
       b=bf->f[i]; MC_ADD(c_samples,n);
       for(j=0;j<n;j++) if(!(fabsf(b[j])<=1.f)){ in=0; break; }
       /* 16-bit (this path soft-clips coded frames and hard-clips concealed ones) */
